@@ -108,7 +108,7 @@ func checkC04(t *testing.T, job *Job, res *Result) {
 		tier = job.Replay.Tier
 	}
 	res.Engine = "E"
-	res.Rule = "tables = every conflict-free set of 2 services (and, over a smaller universe, 3 services) with 1-2 hosts from {default, example.com, a.example.com, *.example.com, *.a.example.com, b.example.com, localhost} and 1-2 path prefixes from {/, /api, /apiary, /api/v2, /a} (some spelled un-normalised); for each table every permutation of the deploy order, one history with remove+redeploy, one ending in a restart, one removing a service, two moving a service to another host (the second followed by a restart), one with the service names in the opposite order; requests: 12 Host headers (ports, IPv6 literals, single label, multi-level subdomains, empty) x 12 paths (look-alikes, trailing and empty segments); oracle: 25-line reference routing function; all orders must agree with it"
+	res.Rule = "tables = every conflict-free set of 2 services (and, over a smaller universe, 3 services) with 1-2 hosts from {default, example.com, a.example.com, *.example.com, *.a.example.com, b.example.com, localhost} and 1-2 path prefixes from {/, /api, /apiary, /api/v2, /a} (some spelled un-normalised); for each table every permutation of the deploy order, one history with remove+redeploy, one ending in a restart, one removing a service, two moving a service to another host (the second followed by a restart), one with the service names in the opposite order; requests: 12 Host headers (ports, IPv6 literals, single label, multi-level subdomains, empty) x 12 paths (look-alikes, trailing and empty segments); oracle: 25-line reference routing function; all orders must agree with it; in the histories where a binding goes away or moves, requests for every Host are also sent between the commands"
 	spec := &HSpec{Prop: "C04", Name: "C04",
 		Obs: ObsSpec{
 			Hosts:   []string{"example.com", "a.example.com", "a.example.com:8080", "x.a.example.com", "y.x.a.example.com", "b.example.com", "other.org", "localhost", "localhost:80", "[::1]", "[::1]:80", ""},
@@ -116,10 +116,25 @@ func checkC04(t *testing.T, job *Job, res *Result) {
 			Cookies: []string{""}, TLS: []bool{false}},
 		Clauses: map[string]bool{"routing": true, "target-set": true, "gate": true, "tls-policy": true},
 	}
+	warm := *spec
+	warm.WarmBetween = &ObsSpec{Hosts: spec.Obs.Hosts, Paths: []string{"/", "/api/v2/x"}, Cookies: []string{""}, TLS: []bool{false}}
+	warmSpec := &warm
 	g := &GenStats{Histogram: map[string]int{}, DistinctKeys: map[string]struct{}{}}
 	res.Gen = g
 	if job.Replay != nil {
-		exploreH(t, job, res, spec)
+		// the same choice as below: histories longer than their table got traffic between the commands
+		names := map[string]bool{}
+		for _, op := range job.Replay.History {
+			f := strings.Fields(op)
+			if len(f) > 1 && f[0] == "deploy" {
+				names[f[1]] = true
+			}
+		}
+		if len(job.Replay.History) > len(names) {
+			exploreH(t, job, res, warmSpec)
+		} else {
+			exploreH(t, job, res, spec)
+		}
 		return
 	}
 	budget := time.Duration(job.BudgetS) * time.Second
@@ -141,7 +156,12 @@ func checkC04(t *testing.T, job *Job, res *Result) {
 			return
 		}
 		for _, hist := range c04Histories(table) {
-			r, m, _ := runHistory(t, spec, hist)
+			hs := spec
+			if len(hist) > len(table) {
+				// histories in which a binding goes away or moves: with requests between the commands
+				hs = warmSpec
+			}
+			r, m, _ := runHistory(t, hs, hist)
 			g.Evaluations += len(spec.Obs.Hosts) * len(spec.Obs.Paths)
 			g.Transitions++
 			g.DistinctKeys[m.key()] = struct{}{}
